@@ -2,6 +2,7 @@ import HdVerif.Proofs.VR
 import HdVerif.Proofs.Aliasing
 import HdVerif.Generated.T20vr
 import HdVerif.Generated.T20uid
+import HdVerif.Generated.T20sites
 import HdVerif.Model.AliasTables
 /-!
 # C20  Building objects never alters inputs and always yields valid files
@@ -211,6 +212,45 @@ theorem person_name_silent_iff (s : List Char) :
   · rw [h] at hb
     simp only [Bool.not_true, Bool.false_and, true_iff]
     right; exact hb.mp rfl
+
+/-! ### the guards are applied to attributes of the value representation they check -/
+
+/-- does the guard for value representation `g` accept `s` -/
+def guardAccepts (g : String) (s : List Char) : Bool :=
+  if g = "CS" then decide (checkCodeString s = .ok ()) else
+  if g = "SH" then decide (checkShortString s = .ok ()) else
+  if g = "LO" then decide (checkLongString s = .ok ()) else
+  if g = "ST" then decide (checkShortText s = .ok ()) else
+  if g = "LT" then decide (checkLongText s = .ok ()) else false
+
+/-- validity for the value representation `a` of an attribute (PS3.5 §6.2); `False` for one this file does not cover -/
+def validFor (a : String) (s : List Char) : Prop :=
+  if a = "CS" then validCS s else if a = "SH" then validSH s else if a = "LO" then validLO s else
+  if a = "ST" then validST s else if a = "LT" then validLT s else False
+
+private theorem sites_same_vr :
+    (guardSites.all fun x => x.2.1 == x.2.2 && ["CS", "SH", "LO", "ST", "LT"].contains x.2.1) = true := by decide
+
+/-- **guard sites.**  At every place of the package where a `valuerep` guard protects a value (table regenerated from all
+modules: guard call → the DICOM attribute the value is then stored under, with that attribute's VR from the data dictionary),
+whatever the guard lets through is a valid value for the attribute's own value representation — no attribute is guarded by
+the check of a laxer VR. -/
+theorem guard_sites_sound (site : String × String × String) (h : site ∈ guardSites) (s : List Char)
+    (ha : guardAccepts site.2.1 s = true) : validFor site.2.2 s := by
+  have hk := List.all_eq_true.mp sites_same_vr site h
+  simp only [Bool.and_eq_true, beq_iff_eq, List.contains_iff_mem] at hk
+  obtain ⟨heq, hmem⟩ := hk
+  rw [← heq]
+  simp only [List.mem_cons, List.not_mem_nil, or_false] at hmem
+  rcases hmem with h' | h' | h' | h' | h' <;> rw [h'] at ha ⊢ <;>
+    simp only [guardAccepts, validFor, decide_eq_true_eq, if_true, if_false, String.reduceEq] at ha ⊢
+  · exact guard_sound_code_string s ha
+  · exact (guard_sound s).1 ha
+  · exact (guard_sound s).2.1 ha
+  · exact (guard_sound s).2.2.1 ha
+  · exact (guard_sound s).2.2.2 ha
+
+example : guardSites.length ≥ 30 := by decide
 
 /-! non-vacuity: the guards accept ordinary values and refuse the witnesses of the two repaired defects -/
 example : checkCodeString "DERIVED".toList = .ok () := by decide
